@@ -44,6 +44,7 @@ CLI_INPUTS = [
     b"687474703a2f2f6578616d706c652e636f6d2f61 FromBase64String('R1ZASA==') -bxor 35",
     bytes(range(256)),
     b"x = chr(72)chr(105)\n",
+    b"x = PROVIDER; y = Docs and strLEN\n",
     b'StrReverse("dc")StrReverse("ba") chr(65)\'b\'+\'c\'',
 ]
 
